@@ -453,6 +453,150 @@ func runC01(r *Run, verifDir string) {
 	// ---------------- P5 ttlv.Value
 	r.Rule("C01.P5", "ttlv.Value decodes to and encodes from the same ten dynamic types with matching reader/writer methods", 10)
 	c.checkValue()
+	valueStorageFresh(r, "C01.P6")
+	valueTagRecorded(r, "C01.P5")
+}
+
+// valueTagRecorded: ttlv.Value.TagDecodeTTLV records the tag it was asked to decode on every path that can return
+// a nil error. The generic value is what unknown attributes, vendor extensions and opaque payloads are kept in; its
+// callers (Decoder.TagAny, the attribute decoder) do not go through Value.DecodeTTLV, so a tag recorded only there
+// leaves them with tag 0 and the preserved item re-encodes under tag 000000.
+func valueTagRecorded(r *Run, rule string) {
+	p := r.P
+	fn := p.Func("ttlv", "Value", "TagDecodeTTLV")
+	key := "ttlv.Value.TagDecodeTTLV/tag-recorded"
+	if fn == nil || len(fn.Params) < 3 {
+		r.Unk(rule, key, token.NoPos, "anchor missing")
+		return
+	}
+	tagParam := fn.Params[2]
+	var stores []ssa.Instruction
+	allInstrs(fn, func(in ssa.Instruction) {
+		st, ok := in.(*ssa.Store)
+		if !ok {
+			return
+		}
+		fa, ok := st.Addr.(*ssa.FieldAddr)
+		if !ok || fa.X != ssa.Value(fn.Params[0]) {
+			return
+		}
+		if fname(derefStruct(fa.X.Type()).Field(fa.Field)) == "Tag" && unspill(st.Val) == ssa.Value(tagParam) {
+			stores = append(stores, in)
+		}
+	})
+	paths, okP := enumeratePaths(fn, 4096)
+	if !okP {
+		r.Unk(rule, key, fn.Pos(), "too many paths")
+		return
+	}
+	bad := token.NoPos
+	for _, path := range paths {
+		last := path[len(path)-1]
+		ret := last.Instrs[len(last.Instrs)-1].(*ssa.Return)
+		if len(ret.Results) != 1 {
+			continue
+		}
+		v := ret.Results[0]
+		if ph, ok := v.(*ssa.Phi); ok && ph.Block() == last && len(path) > 1 {
+			if pi := predIndex(last, path[len(path)-2]); pi >= 0 {
+				v = ph.Edges[pi]
+			}
+		}
+		errPath, inf, stored := false, false, false
+		switch x := v.(type) {
+		case *ssa.Call:
+			id := callID(&x.Call)
+			if id.pkg == "fmt" || id.pkg == "errors" || id.is(ttlvPath, "", "Errorf") {
+				errPath = true
+			}
+		case *ssa.MakeInterface:
+			errPath = true
+		}
+		for i, b := range path {
+			for _, in := range b.Instrs {
+				for _, st := range stores {
+					if in == st {
+						stored = true
+					}
+				}
+			}
+			cond, isTrue, ok, infeasible := edgeOnPath(path, i)
+			if infeasible {
+				inf = true
+			}
+			if !ok {
+				continue
+			}
+			// `err != nil` taken: an error path (the value tested is an error-typed value)
+			if bo, isB := cond.(*ssa.BinOp); isB && isNilConst(bo.Y) && (bo.Op == token.NEQ) == isTrue && (bo.Op == token.NEQ || bo.Op == token.EQL) {
+				if types.Identical(bo.X.Type(), types.Universe.Lookup("error").Type()) {
+					errPath = true
+				}
+			}
+		}
+		if inf || errPath || stored {
+			continue
+		}
+		bad = ret.Pos()
+		if !bad.IsValid() {
+			bad = fn.Pos()
+		}
+	}
+	if bad.IsValid() {
+		r.Bad(rule, key, bad, "Value.TagDecodeTTLV can return without an error and without having recorded the tag it decoded (v.Tag = tag): callers that decode a generic value under a given tag (Decoder.TagAny for unknown attribute values, server information, vendor extensions) keep an item whose tag is 0, which re-encodes under tag 000000 instead of its own")
+	} else {
+		r.OK(rule, key, fn.Pos(), "%d path(s): every return that can carry a nil error follows v.Tag = tag", len(paths))
+	}
+}
+
+// valueStorageFresh: the generic tree decoders (methods of ttlv.Value and ttlv.Struct) never truncate-and-reuse a
+// slice (`s[:0]`) they did not just create: a container decoded into the storage of an earlier one shares its backing
+// array with it, so decoding the next sibling structure overwrites the children of the previous one — the decoded tree
+// differs from the message and re-encoding produces other bytes.
+func valueStorageFresh(r *Run, rule string) {
+	p := r.P
+	r.Rule(rule, "the generic tree decoder never reuses the storage of a previously decoded container (no s[:0] of an existing slice)", 1)
+	n, nFn := 0, 0
+	for _, fn := range pkgFuncs(p, "ttlv") {
+		id := idOf(fn)
+		top := fn
+		for top.Parent() != nil {
+			top = top.Parent()
+		}
+		tid := idOf(top)
+		if tid.recv != "Value" && tid.recv != "Struct" {
+			continue
+		}
+		if !strings.Contains(tid.name, "Decode") {
+			continue
+		}
+		_ = id
+		nFn++
+		allInstrs(fn, func(in ssa.Instruction) {
+			sl, ok := in.(*ssa.Slice)
+			if !ok || sl.Low != nil || sl.High == nil {
+				return
+			}
+			if _, isSlice := sl.X.Type().Underlying().(*types.Slice); !isSlice {
+				return
+			}
+			if k, isK := constIntVal(sl.High); !isK || k != 0 {
+				return
+			}
+			switch unspill(sl.X).(type) {
+			case *ssa.MakeSlice, *ssa.Alloc:
+				return
+			}
+			n++
+			r.Bad(rule, fmt.Sprintf("%s/reuse#%d", fnKey(fn), n), sl.Pos(), "%s truncates an existing slice to length 0 and decodes into it: the container decoded next shares its backing array with the one decoded before (two adjacent sibling structures: the children of the first are overwritten by those of the second), so the decoded tree is not the message", fnKey(fn))
+		})
+	}
+	switch {
+	case nFn == 0:
+		r.Unk(rule, "ttlv.Value/decoders", token.NoPos, "no decoder method of ttlv.Value / ttlv.Struct found")
+	case n == 0:
+		r.OK(rule, "ttlv.Value/fresh-storage", token.NoPos, "%d decoder function(s) of ttlv.Value/ttlv.Struct: none decodes into truncated existing storage", nFn)
+	}
 }
 
 // handDecoders lists (type, decoder function) for every struct type with a hand-written decoder.
